@@ -143,6 +143,29 @@ pub fn check_amplification(out: &mut Outcome, net: &SimNet) {
     if let Some((sent, rcvd, at)) = g.amp_violation {
         out.violate("over-3x", "", format!("server had sent {sent} bytes to the unvalidated client address after receiving {rcvd} from it (limit {}), at {at} ms", 3 * rcvd), at);
     }
+    if let Some((sent, rcvd, at, short)) = g.amp_violation_rebound {
+        // Three mechanisms are told apart, so that each can be listed without hiding the others: (1) what exceeds the
+        // budget are datagrams that ignore it altogether — long-header packets padded to full size and padded
+        // PATH_CHALLENGE probes — while the 1-RTT packets carrying anything else stayed within it; (2) those packets
+        // overdraw it by less than one burst (the credit is read once per burst and charged after it); (3) anything
+        // beyond: ordinary data flows to the unvalidated address.
+        let data_excess = g.alt_data_excess.map(|(d, r)| d - 3 * r).unwrap_or(0);
+        let _ = short;
+        let site = if data_excess == 0 {
+            "rebound-path:probes-and-long-header-datagrams-ignore-credit"
+        } else if data_excess <= 6000 {
+            "rebound-path:burst-overdraw"
+        } else {
+            "rebound-path"
+        };
+        out.violate("over-3x", site, format!("after a NAT rebinding the server had sent {sent} bytes to the new, not yet validated client address after receiving {rcvd} from it (limit {}; {short} of them in short-header datagrams), at {at} ms", 3 * rcvd), at);
+    }
+    if g.nat_real.is_some() {
+        out.stats.bump("probe.nat_rebinding_happened");
+        if g.alt_validated_at.is_some() {
+            out.stats.bump("probe.rebound_address_validated");
+        }
+    }
     if g.server_validated_at.is_some() {
         out.stats.bump("probe.address_validated");
     }
